@@ -16,8 +16,27 @@ def generate(R, tier):
                 for win in (0, mss, 2 * mss, 3 * (mss - 12), mss + 40, 2 * (mss + 60), 1460, 1448 * 2, 1440, 1428 * 3, 3000):
                     yield {"stream": "grid", "pkt": {"ver": ver, "olen": 0, "ttl": 64, "win": win, "layout": [2], "mss": mss, "ws": 0,
                                                      "ts1": ts1, "eol": 0, "hdr": 60 if ver == 4 else 80, "pay": False, "quirks": 0, "syn_mss": 0}}
-    for _ in range(n):
-        yield {"stream": "aimed", "pkt": G.rand_pkt(R)}
+    for _ in range(n // 4):
+        p = G.rand_pkt(R)
+        yield {"stream": "aimed", "pkt": p}
+        # siblings differing in exactly one input of the rule, evaluated right after (same process):
+        # a result remembered under too coarse a key shows up here
+        for _ in range(3):
+            k = R.choice(["ts1", "hdr", "syn_mss", "ver", "mss", "win"])
+            q = dict(p)
+            if k == "ts1":
+                q["ts1"] = 0 if p["ts1"] else 12345
+            elif k == "hdr":
+                q["hdr"] = R.choice([x for x in (40, 44, 52, 60, 64, 80) if x != p["hdr"]])
+            elif k == "syn_mss":
+                q["syn_mss"] = R.choice([0, 1380, 536, 1460, p["win"] // 3 or 7, p["win"] // 5 or 9])
+            elif k == "ver":
+                q["ver"] = 10 - p["ver"]
+            elif k == "mss":
+                q["mss"] = R.choice([p["mss"] + 12, max(0, p["mss"] - 12), 1460])
+            else:
+                q["win"] = R.choice([(p["mss"] - 12) * 4 % 65536 if p["mss"] > 12 else 0, (p["mss"] + p["hdr"]) * 2 % 65536, p["win"] // 2])
+            yield {"stream": "sibling-" + k, "pkt": q}
 
 
 def model_line(c):
